@@ -236,6 +236,23 @@ def bounded_native(ck):
                         fails.append({"obligation": "scalar.path", "clause": "scalars take the same path as arrays", "input": {"function": nm + "." + fname, "x": float(x)},
                                       "observed": {"scalar": float(s), "array": float(ref)}})
                         break
+        # inputs that are not float64: python / numpy integers, float32 (the cloud maps' type), integer arrays, 2-D arrays
+        for mod, nm in ((PR, n1), (AM, n2)):
+            for fname, vals in (("us_std_atm_altitude_from_pressure", (101325, 50000, 22632, 1, np.int64(5474), np.int32(868), np.float32(30000.0), np.array([101325, 50000, 1000]), np.array([[80000.0, 20000.0], [500.0, 3.0]], dtype=np.float32))),
+                                ("us_std_atm_pressure_from_altitude", (0, 5, 11, 20, np.int64(32), np.float32(12.5), np.array([0, 7, 25, 60]), np.array([[1.0, 15.0], [40.0, 80.0]], dtype=np.float32)))):
+                f = getattr(mod, fname)
+                for x in vals:
+                    n += 1
+                    want = f(np.asarray(x, dtype=np.float64))
+                    try:
+                        got = f(x.copy() if isinstance(x, np.ndarray) else x)
+                        ok = np.shape(got) == np.shape(want) and np.allclose(np.asarray(got, dtype=np.float64), want, rtol=2e-6 if np.asarray(x).dtype == np.float32 else 1e-14, atol=0)
+                        obs = {"result": np.asarray(got, dtype=np.float64).ravel()[:3].tolist(), "float64 evaluation": np.asarray(want).ravel()[:3].tolist(), "result dtype": str(np.asarray(got).dtype)}
+                    except Exception as ex:
+                        ok, obs = False, "raised %r" % ex
+                    if not ok:
+                        fails.append({"obligation": "input.types", "clause": "integers, float32 values and arrays of them are evaluated like the float64 numbers they denote (scalars and arrays alike)",
+                                      "input": {"function": nm + "." + fname, "x": repr(x)[:80], "type": type(x).__name__ + (":" + str(x.dtype) if hasattr(x, "dtype") else "")}, "observed": obs})
         # limits
         for mod, nm in ((PR, n1), (AM, n2)):
             n += 2
